@@ -4,12 +4,17 @@ every length): magnets unchanged, currents ÷ λ, dipoles ÷ λ³; proportional 
 Proved here for the kernels that are plain algebra (Dipole, Sphere incl. its inside/outside
 switch, straight current segment incl. its foot-point case split) and for the Cuboid: its six
 closed-form factors, the octant reflection and sign logic, and every mask of its wrapper.
-/- FULL: all source classes.  Not shown by theorem: Cylinder, CylinderSegment, Circle,
-   Triangle family (kernels not ported to the real carrier); there the oracle rescales one
+Also: Triangle (edge integrals with their relative `1e-12·l` branch test, solid angle, assembled
+sheet field), Tetrahedron (chirality fix, barycentric inside test, all four fields) and Circle
+(`current_circle_Hfield` with the cel iteration as an opaque function, and every special-case
+mask of `BHJM_circle`) — helper algebra in Lemmas/KernAlgebra.lean.
+/- FULL: all source classes.  Not shown by theorem: Cylinder, CylinderSegment (kernels not
+   ported to the real carrier) and the TriangularMesh inside test; there the oracle rescales one
    configuration over 10^-9 … 10^9.  Known finding: TriangularMesh inside/outside and
    orientation tests use absolute tolerances and fail for lengths ≲ 1e-6. -/
 -/
 import MagpyVerif.Lemmas.KernReal
+import MagpyVerif.Lemmas.KernAlgebra
 namespace MagpyVerif.C12
 open MagpyVerif MagpyVerif.Kern
 
@@ -183,4 +188,122 @@ theorem cuboidMasks_scale_invariant (l : ℝ) (hl : 0 < l) (dim pol x : V3 ℝ) 
   have r1 : ∀ a xx : ℝ, l * |xx| - l * |a| / ↑(2 : ℕ) = l * (|xx| - |a| / ↑(2 : ℕ)) := fun a xx => by ring
   have r2 : ∀ t a : ℝ, t * (l * |a| / ↑(2 : ℕ)) = l * (t * (|a| / ↑(2 : ℕ))) := fun t a => by ring
   simp only [r1, r2, habs, hlt]
+
+/-! ### Triangle -/
+
+/-- Triangle, one edge integral `I` of `triangle_Bfield`: multiplying the vertex–observer vector
+`R` and the edge vector `L` by the same `l > 0` divides `I` by `l`.  No non-degeneracy hypothesis
+is needed: the argument of each logarithm is a ratio of two lengths (so it is literally unchanged),
+and the prefactor `1/l_edge` carries the `1/l`. -/
+theorem triEdgeI_scale (l : ℝ) (hl : 0 < l) (R L : V3 ℝ) :
+    triEdgeI (vs l R) (vs l L) = 1 / l * triEdgeI R L :=
+  triEdgeI_scale' mu0R l hl R L
+
+/-- the switch between the general formula and the edge-extension formula of `triangle_Bfield`
+(`ind > 1.0e-12 * l`) is taken at the same observers whatever the length unit: both sides of the
+comparison are lengths and scale by `l`; `triEdgeI` is the first formula where the test holds and
+the second where it fails -/
+theorem triEdge_branch_scale_free (l : ℝ) (hl : 0 < l) (R L : V3 ℝ) :
+    (triEdgeFar (V3.dot (vs l R) (vs l R)) (V3.dot (vs l L) (vs l L)) (V3.dot (vs l R) (vs l L)) ↔
+      triEdgeFar (V3.dot R R) (V3.dot L L) (V3.dot R L)) ∧
+    triEdgeI R L = triEdgeS (V3.dot R R) (V3.dot L L) (V3.dot R L) := by
+  refine ⟨?_, triEdgeI_eq mu0R R L⟩
+  rw [dot_vs_vs mu0R, dot_vs_vs mu0R, dot_vs_vs mu0R]
+  exact triEdgeFar_scale l hl _ _ _
+
+-- non-vacuity: both branches of the edge integral occur — observer off the edge line
+-- (R = (1,0,0), L = (0,1,0): ind = 1), and observer on the edge's extension (R = (-2,0,0), L = (1,0,0): ind = 0)
+example : triEdgeFar (V3.dot (⟨1, 0, 0⟩ : V3 ℝ) ⟨1, 0, 0⟩) (V3.dot (⟨0, 1, 0⟩ : V3 ℝ) ⟨0, 1, 0⟩)
+    (V3.dot (⟨1, 0, 0⟩ : V3 ℝ) ⟨0, 1, 0⟩) := by
+  simp [triEdgeFar, V3.dot]
+  norm_num
+example : ¬ triEdgeFar (V3.dot (⟨-2, 0, 0⟩ : V3 ℝ) ⟨-2, 0, 0⟩) (V3.dot (⟨1, 0, 0⟩ : V3 ℝ) ⟨1, 0, 0⟩)
+    (V3.dot (⟨-2, 0, 0⟩ : V3 ℝ) ⟨1, 0, 0⟩) := by
+  simp [triEdgeFar, V3.dot]
+example : triEdgeI (vs 1000 (⟨1, 0, 0⟩ : V3 ℝ)) (vs 1000 ⟨0, 1, 0⟩) = 1 / 1000 * triEdgeI ⟨1, 0, 0⟩ ⟨0, 1, 0⟩ :=
+  triEdgeI_scale 1000 (by norm_num) _ _
+
+/-- Triangle, `solid_angle`: the solid angle under which the triangle is seen is unchanged when
+the three vertex–observer vectors and their lengths are multiplied by `l > 0` (numerator and
+denominator of the `arctan2` both scale by `l³`), including the `|result| > 6.2831853 → 0` guard -/
+theorem solidAngle_scale (l : ℝ) (hl : 0 < l) (R0 R1 R2 : V3 ℝ) (r0 r1 r2 : ℝ) :
+    solidAngle (vs l R0) (vs l R1) (vs l R2) (l * r0) (l * r1) (l * r2) = solidAngle R0 R1 R2 r0 r1 r2 :=
+  solidAngle_scale' mu0R l hl R0 R1 R2 r0 r1 r2
+
+example : solidAngle (vs 3 (⟨1, 0, 0⟩ : V3 ℝ)) (vs 3 ⟨0, 1, 0⟩) (vs 3 ⟨0, 0, 1⟩) (3 * 1) (3 * 1) (3 * 1) =
+    solidAngle ⟨1, 0, 0⟩ ⟨0, 1, 0⟩ ⟨0, 0, 1⟩ 1 1 1 := solidAngle_scale 3 (by norm_num) _ _ _ _ _ _
+
+/-- C12 (Triangle): `triangle_Bfield` returns the same B when the three vertices and the observer
+are multiplied by the same `l > 0` — for every triangle and every observer (the unit normal, the
+charge density σ = n·J, the solid angle and `I·L` for each edge are all dimensionless) -/
+theorem triangleB_scale_invariant (l : ℝ) (hl : 0 < l) (v0 v1 v2 pol x : V3 ℝ) :
+    triangleB (vs l v0) (vs l v1) (vs l v2) pol (vs l x) = triangleB v0 v1 v2 pol x :=
+  triangleB_scale' mu0R l hl v0 v1 v2 pol x
+
+/-- C12 (Triangle): all four outputs of `BHJM_triangle` are unit invariant -/
+theorem bhjmTriangle_scale_invariant (l : ℝ) (hl : 0 < l) (f : Field) (v0 v1 v2 pol x : V3 ℝ) :
+    bhjmTriangle f (vs l v0) (vs l v1) (vs l v2) pol (vs l x) = bhjmTriangle f v0 v1 v2 pol x :=
+  bhjmTriangle_scale' mu0R l hl f v0 v1 v2 pol x
+
+example : bhjmTriangle .H (vs (1 / 1000000000) (⟨0, 0, 0⟩ : V3 ℝ)) (vs (1 / 1000000000) ⟨1, 0, 0⟩)
+    (vs (1 / 1000000000) ⟨0, 1, 0⟩) ⟨0, 0, 1⟩ (vs (1 / 1000000000) ⟨1, 2, 3⟩) =
+    bhjmTriangle .H ⟨0, 0, 0⟩ ⟨1, 0, 0⟩ ⟨0, 1, 0⟩ ⟨0, 0, 1⟩ ⟨1, 2, 3⟩ :=
+  bhjmTriangle_scale_invariant _ (by norm_num) _ _ _ _ _ _
+
+/-! ### Tetrahedron -/
+
+/-- `check_chirality` decides by the sign of a determinant that scales by `l³ > 0`: the same two
+vertices are exchanged (or not) at every length scale -/
+theorem tetraChirality_scale (l : ℝ) (hl : 0 < l) (v0 v1 v2 v3 : V3 ℝ) :
+    tetraChirality (vs l v0) (vs l v1) (vs l v2) (vs l v3) =
+      ((vs l (tetraChirality v0 v1 v2 v3).1, vs l (tetraChirality v0 v1 v2 v3).2.1,
+        vs l (tetraChirality v0 v1 v2 v3).2.2.1, vs l (tetraChirality v0 v1 v2 v3).2.2.2)) :=
+  tetraChirality_scale' mu0R l hl v0 v1 v2 v3
+
+/-- `point_inside` of the Tetrahedron works on barycentric coordinates (ratios of determinants):
+the inside set scales with the body -/
+theorem tetraInside_scale_invariant (l : ℝ) (hl : 0 < l) (v0 v1 v2 v3 x : V3 ℝ) :
+    tetraInside (vs l v0) (vs l v1) (vs l v2) (vs l v3) (vs l x) = tetraInside v0 v1 v2 v3 x :=
+  tetraInside_scale' mu0R l hl v0 v1 v2 v3 x
+
+/-- C12 (Tetrahedron): B, H, J and M of `BHJM_magnet_tetrahedron` are unchanged when the four
+vertices and the observer are multiplied by the same `l > 0` — every observer, inside or outside -/
+theorem bhjmTetra_scale_invariant (l : ℝ) (hl : 0 < l) (f : Field) (v0 v1 v2 v3 pol x : V3 ℝ) :
+    bhjmTetra f (vs l v0) (vs l v1) (vs l v2) (vs l v3) pol (vs l x) = bhjmTetra f v0 v1 v2 v3 pol x :=
+  bhjmTetra_scale' mu0R l hl f v0 v1 v2 v3 pol x
+
+-- non-vacuity: a left-handed tetrahedron (the swap happens) with an observer inside
+example : tetraChirality (⟨0, 0, 0⟩ : V3 ℝ) ⟨1, 0, 0⟩ ⟨0, 0, 1⟩ ⟨0, 1, 0⟩ =
+    (⟨0, 0, 0⟩, ⟨1, 0, 0⟩, ⟨0, 1, 0⟩, ⟨0, 0, 1⟩) := by
+  simp [tetraChirality, det3, n]
+example : tetraInside (⟨0, 0, 0⟩ : V3 ℝ) ⟨1, 0, 0⟩ ⟨0, 0, 1⟩ ⟨0, 1, 0⟩ ⟨1 / 4, 1 / 4, 1 / 4⟩ = true := by
+  simp [tetraInside, det3, n]
+  norm_num
+
+/-! ### Circle -/
+
+/-- Circle, `current_circle_Hfield` in cylinder coordinates: multiplying loop radius and observer
+(r, z) by `l` divides (Hr, Hz) by `l`.  After the first two lines (`r/r0`, `z/r0`) the computation
+— including both Bulirsch `cel` iterations and whether they finish within `fuel` steps — is the
+same; only the prefactor `pf` carries `1/r0`. -/
+theorem circleHcyl_homogeneous (l : ℝ) (hl : l ≠ 0) (fuel : Nat) (r0 r z i0 : ℝ) :
+    circleHcyl fuel (l * r0) (l * r) (l * z) i0 =
+      (circleHcyl fuel r0 r z i0).map (fun h => (h.1 / l, h.2 / l)) :=
+  circleHcyl_scale' mu0R l hl fuel r0 r z i0
+
+/-- C12 (Circle): `BHJM_circle` with diameter and observer multiplied by `l > 0` returns the field
+divided by `l`, for all four outputs and through every special case: the masks "zero diameter",
+"on the wire within 1e-15·r0" and "on the axis" select the same observers at every scale, the
+on-axis formula is homogeneous of degree −1, and the azimuth used to rotate back is unchanged -/
+theorem bhjmCircle_homogeneous (l : ℝ) (hl : 0 < l) (fuel : Nat) (f : Field) (d cur : ℝ) (x : V3 ℝ) :
+    bhjmCircle fuel f (l * d) cur (vs l x) = (bhjmCircle fuel f d cur x).map (vs (1 / l)) :=
+  bhjmCircle_scale' mu0R l hl fuel f d cur x
+
+-- non-vacuity: an observer on the axis of a loop of diameter 2 (special case with non-zero field)
+example : bhjmCircle 200 .H 2 1 (⟨0, 0, 0⟩ : V3 ℝ) = some ⟨0, 0, 1 / 2⟩ := by
+  simp [bhjmCircle, n]
+example : bhjmCircle 200 .H (1000 * 2) 1 (vs 1000 (⟨3, 4, 5⟩ : V3 ℝ)) =
+    (bhjmCircle 200 .H 2 1 ⟨3, 4, 5⟩).map (vs (1 / 1000)) :=
+  bhjmCircle_homogeneous 1000 (by norm_num) 200 .H 2 1 _
+
 end MagpyVerif.C12
